@@ -210,7 +210,12 @@ type sysCase struct {
 }
 
 func backgroundFaultFilter(p simrt.OpPoint) bool {
-	if !strings.Contains(p.Name, "flush") && !strings.Contains(p.Name, "ompaction") && !strings.Contains(p.Name, "Flush") {
+	// the flusher, the compactor, and the flush that Open performs itself after replaying a non-empty WAL
+	inOpenFlush := false
+	if w := simrt.W(); w != nil && w.Phase == "open" && p.Name == "main" && strings.HasPrefix(p.Rel, "flush_") {
+		inOpenFlush = true
+	}
+	if !inOpenFlush && !strings.Contains(p.Name, "flush") && !strings.Contains(p.Name, "ompaction") && !strings.Contains(p.Name, "Flush") {
 		return false
 	}
 	// the bloom filter dependency overwrites its own write error with the result of Close: not this repository's code
@@ -341,6 +346,10 @@ func sysGen(r *rand.Rand, thorough bool) dbCase {
 		c.Sessions = append(c.Sessions, dbSession{Opts: opts, Clients: [][]dbOp{genProgram(r, nkeys, nops, 10, 20)}, Knobs: knobs})
 	}
 	c.Recovery = genOpts(r)
+	if nsess > 1 && r.Intn(2) == 0 {
+		// the first session is killed instead of closed: the next Open finds a WAL to replay and flushes it itself
+		c.Sessions[0].NoClose = true
+	}
 	if r.Intn(6) == 0 {
 		// tables larger than the 4 MiB read buffer of the compaction's input scanners, so that an input iterator can
 		// fail in the middle of a merge (with smaller tables the whole file is buffered by the first read)
